@@ -196,9 +196,9 @@ def build(tier, mutate=None, seed=0):
     elif tier == "quick":
         plan = [(nm, ms, 2) for nm, ms in core] + [(nm, ms, 1) for nm, ms in random_templates(rng, 12, 220)]
     else:
-        plan = ([(nm, ms, 2) for nm, ms in core] + [(nm, ms, 2) for nm, ms in random_templates(rng, 100, 400)]
+        plan = ([(nm, ms, 2) for nm, ms in core] + [(nm, ms, 2) for nm, ms in random_templates(rng, 40, 250)]
                 + [(nm + "/k3", ms, 3) for nm, ms in core if len(render(ms)[0]) <= 120]
-                + [(nm + "/k3", ms, 3) for nm, ms in random_templates(random.Random(5000 + seed), 16, 110)])
+                + [(nm + "/k3", ms, 3) for nm, ms in random_templates(random.Random(5000 + seed), 8, 100)])
     for nm, ms, K in plan:
         stream, exp = render(ms)
         units.append(Unit("seg/%s/cuts=%d" % (nm, K), seg_unit(C, ms, K), seg_unit(real_conn, ms, K), split=(K >= 2),
